@@ -7,6 +7,7 @@ From Coq Require Import ZArith List Bool Lia ZifyBool.
 From HV Require Import Prelude.Py Prelude.State.
 Import ListNotations.
 Open Scope Z_scope.
+Ltac Zify.zify_post_hook ::= Z.to_euclidean_division_equations.
 
 Lemma while_fuel_ext {S R} (f g : S -> ctl S R) :
   (forall s, f s = g s) -> forall fuel s, while_fuel fuel f s = while_fuel fuel g s.
@@ -49,10 +50,20 @@ Ltac bool_eq := solve [ reflexivity | lia | (norm_cmp; lia) ].
 Ltac destruct_pairs :=
   repeat match goal with p : (_ * _)%type |- _ => destruct p end.
 
+Ltac arith_eq := solve [ reflexivity | lia | (f_equal; lia) | (norm_cmp; lia) ].
+
 Ltac bstep :=
   match goal with
   | |- ?a = ?a => reflexivity
+  (* local definitions, one at a time: equal bound terms (up to arithmetic) are identified first *)
+  | |- (let x := ?a in @?f x) = (let y := ?b in @?g y) =>
+      first [ constr_eq a b | replace a with b by arith_eq | idtac ];
+      match goal with |- (let x := ?a' in @?f' x) = (let y := ?b' in @?g' y) => change (f' a' = g' b') end; cbv beta
+  | |- (let x := ?a in @?f x) = ?r => change (f a = r); cbv beta
+  | |- ?l = (let y := ?b in @?g y) => change (l = g b); cbv beta
   | |- (if ?c then _ else _) = (if ?c then _ else _) => destruct c eqn:?
+  | |- (if negb ?c then _ else _) = _ => destruct c eqn:?; cbn [negb]
+  | |- _ = (if negb ?c then _ else _) => destruct c eqn:?; cbn [negb]
   | |- (if ?c then _ else _) = (if ?d then _ else _) =>
       let H := fresh in assert (H : c = d) by bool_eq; rewrite H; clear H
   | |- bind ?m _ = bind ?m _ => destruct m eqn:?; cbn [bind]
@@ -63,16 +74,24 @@ Ltac bstep :=
   | |- Ok _ = Ok _ => f_equal
   | |- (_, _) = (_, _) => f_equal
   | |- match while_fuel ?n ?f ?s with _ => _ end = match while_fuel ?n ?g ?s with _ => _ end =>
-        rewrite (while_fuel_ext f g) by (intros; destruct_pairs; cbv beta iota zeta; repeat bstep)
+        rewrite (while_fuel_ext f g) by (intros; destruct_pairs; repeat (cbv beta iota; bstep))
   | |- match for_each ?xs ?f ?s with _ => _ end = match for_each ?xs ?g ?s with _ => _ end =>
-        rewrite (for_each_ext f g) by (intros; destruct_pairs; cbv beta iota zeta; repeat bstep)
+        rewrite (for_each_ext f g) by (intros; destruct_pairs; repeat (cbv beta iota; bstep))
   | |- match ?m with _ => _ end = match ?m with _ => _ end => destruct m eqn:?
   | |- Next _ = Next _ => f_equal
   | |- Break _ = Break _ => f_equal
   | |- Return _ _ = Return _ _ => f_equal
   | |- Raise _ _ = Raise _ _ => f_equal
-  | |- _ = _ => solve [ lia | (f_equal; lia) | (repeat f_equal; lia) ]
+  | |- _ = _ => solve [ lia | (f_equal; lia) | (repeat f_equal; lia) | reflexivity ]
   end.
 
-Ltac bridge_auto := intros; cbv zeta; repeat (cbv beta iota zeta; bstep).
+(* small integer constants of the source and of the model are unfolded to their values, so that
+   [lia] can compare tests written against them (redefined in Bridge/BridgeConsts.v) *)
+Ltac norm_consts := idtac.
+Ltac head_of t := match t with ?f _ => head_of f | _ => t end.
+Ltac unfold_heads :=
+  match goal with
+  | |- ?l = ?r => let hl := head_of l in let hr := head_of r in cbv delta [hl hr]
+  end.
+Ltac bridge_auto := intros; unfold_heads; norm_consts; repeat (cbv beta iota; bstep).
 Ltac bridge := first [ reflexivity | (intros; reflexivity) | bridge_auto ].
